@@ -81,3 +81,21 @@ Proof.
   split. { apply Qeq_bool_iff. vm_compute. reflexivity. }
   apply Qeq_bool_false. vm_compute. reflexivity.
 Qed.
+
+(* grouped for Properties/C12.v *)
+Lemma G_series_stop_data_outside :
+  (forall (t : nat -> Q) (fuel : nat),
+     (forall s : Q, series_q t 0 fuel 0 = Some s ->
+        exists K : nat, (K < fuel)%nat /\ t K == 0 /\ (forall i : nat, (i < K)%nat -> ~ t i == 0) /\
+                        s == nat_sum t K) /\
+     (series_q t 0 fuel 0 = None <-> (forall i : nat, (i < fuel)%nat -> ~ t i == 0))) /\
+  (exists (k : kde) (m M x : Q) (N : nat) (p c : Q),
+    kde_ok k /\ k_kernel k = KEpan /\ k_b k = BBoth m M /\ m < M /\ ~ pairs_within m M (kde_ps k) /\
+    m <= x /\ x < M /\ (k_fuel k <= N)%nat /\
+    kde_pdf k x = Some (XFin p) /\ kde_cdf k x = Some (XFin c) /\
+    ~ p == fold_pdf (kde_f k) m M N x /\ ~ c == fold_cdf (kde_F k) m M N x /\
+    pdf_upper (mix (epan_pdf (k_h k)) (k_xs k) (k_ws k)) m M x 0 == 0 /\
+    ~ pdf_upper (mix (epan_pdf (k_h k)) (k_xs k) (k_ws k)) m M x 1 == 0 /\
+    cdf_upper (mix (epan_cdf (k_h k)) (k_xs k) (k_ws k)) m M x 0 == 0 /\
+    ~ cdf_upper (mix (epan_cdf (k_h k)) (k_xs k) (k_ws k)) m M x 1 == 0).
+Proof. split; [exact series_q_first_zero | exact kde_both_data_outside_refuted]. Qed.
